@@ -187,7 +187,8 @@ class Ctx:
         for src, dst in (files or {}).items():
             shutil.copy(src, os.path.join(specdir, dst))
         md = tempfile.mkdtemp(prefix="md-", dir=self.scratch)
-        cmd = ["timeout", str(timeout), "java", "-XX:+UseParallelGC"]
+        # (TLC leaves an empty tlc-<n> directory in java.io.tmpdir per run: keep them inside the scratch space)
+        cmd = ["timeout", str(timeout), "java", "-XX:+UseParallelGC", "-Djava.io.tmpdir=" + self.scratch]
         cmd += jvm or []
         cmd += ["-cp", "/opt/veriftools/tla/tla2tools.jar:/opt/veriftools/tla/CommunityModules-deps.jar", "tlc2.TLC"]
         cmd += ["-workers", str(workers or NCPU), "-metadir", md, "-config", cfg]
